@@ -8,56 +8,106 @@ elements) is `C01.read_after_history`; this file adds the chunk caches: for ever
 policy that never invents entries (LRU by count or by size at any capacity including 0 and 1, moka's deferred
 eviction, unbounded), every starting cache that is coherent with the store, and every sequence of reads
 (repeats, evictions), a cached read returns exactly what the uncached read returns.
+
+The `example`s after each theorem show that its hypotheses are satisfiable on the concrete fixture
+`C06.Ex` of `Lemmas/Cache.lean` (shape `[4]`, grid `[Dim.fixed 2]`, store holding encoded chunk `[0]`,
+one coherent cache of each kind, LRU capacity 1).
 -/
 namespace Zarrs.C06
 open Zarrs
 
 variable {α : Type} [DecidableEq α]
+-- `[DecidableEq α]` is kept from the specification's statements; the proofs hold for any element type
+set_option linter.unusedSectionVars false
 
 /-- an eviction policy may drop entries but never invents or alters them -/
 def EvictOk (evict : Cache α → Cache α) : Prop := ∀ c, (evict c).Sublist c
 
 /-- filling is exactly the uncached read, for both cache kinds -/
 theorem fill_decode_eq_uncached (cfg : ArrCfg α) (st : KV) (kind : CacheKind) (c : Idx) (e : CacheEntry α)
-    (h : cfg.cacheFill st kind c = some e) : cfg.cacheDecode c e = cfg.retrieveChunk st c := by
-  sorry
+    (h : cfg.cacheFill st kind c = some e) : cfg.cacheDecode c e = cfg.retrieveChunk st c :=
+  cfg.cacheDecode_of_cacheFill st kind c e h
+
+-- the fill closure succeeds for both kinds, on a stored chunk and on a missing one
+example : Ex.cfg.cacheFill Ex.st .encoded [0] = some (.encoded (some [7, 9])) := rfl
+example : Ex.cfg.cacheFill Ex.st .decoded [0] = some (.decoded [7, 9]) := rfl
+example : Ex.cfg.cacheFill Ex.st .encoded [1] = some (.encoded none) := rfl
+example : Ex.cfg.cacheFill Ex.st .decoded [1] = some (.decoded [0, 0]) := rfl
+example : Ex.cfg.retrieveChunk Ex.st [0] = some [7, 9] := by decide
+example : Ex.cfg.retrieveChunk Ex.st [1] = some [0, 0] := by decide
 
 /-- a failed fill is a failed uncached read and inserts nothing -/
 theorem fill_none_iff (cfg : ArrCfg α) (st : KV) (kind : CacheKind) (c : Idx) :
-    cfg.cacheFill st kind c = none → cfg.retrieveChunk st c = none := by
-  sorry
+    cfg.cacheFill st kind c = none → cfg.retrieveChunk st c = none :=
+  cfg.retrieveChunk_none_of_cacheFill_none st kind c
+
+-- the fill closure fails for chunk indices of the wrong rank
+example : Ex.cfg.cacheFill Ex.st .encoded [0, 0] = none := rfl
+example : Ex.cfg.cacheFill Ex.st .decoded [0, 0] = none := rfl
 
 /-- one cached read: same result as uncached, coherence preserved -/
 theorem cached_read_eq (cfg : ArrCfg α) (st : KV) (kind : CacheKind) (evict : Cache α → Cache α)
     (hev : EvictOk evict) (cache : Cache α) (hc : cfg.CacheOk st kind cache) (c : Idx) :
     (cfg.cachedRetrieveChunk st kind evict cache c).1 = cfg.retrieveChunk st c ∧
-    cfg.CacheOk st kind (cfg.cachedRetrieveChunk st kind evict cache c).2 := by
-  sorry
+    cfg.CacheOk st kind (cfg.cachedRetrieveChunk st kind evict cache c).2 :=
+  cfg.cachedRetrieveChunk_spec st kind evict hev cache hc c
+
+-- a capacity-1 LRU is `EvictOk`; non-empty coherent caches of both kinds exist
+example : EvictOk Ex.evict1 := fun c => List.take_sublist 1 c
+example : Ex.cfg.CacheOk Ex.st .encoded Ex.cacheEnc := Ex.cacheEnc_ok
+example : Ex.cfg.CacheOk Ex.st .decoded Ex.cacheDec := Ex.cacheDec_ok
+-- a hit, and a miss that evicts the previous entry
+example : (Ex.cfg.cachedRetrieveChunk Ex.st .encoded Ex.evict1 Ex.cacheEnc [0]).1 = some [7, 9] := by decide
+example : (Ex.cfg.cachedRetrieveChunk Ex.st .encoded Ex.evict1 Ex.cacheEnc [1]).1 = some [0, 0] := by decide
+example : (Ex.cfg.cachedRetrieveChunk Ex.st .encoded Ex.evict1 Ex.cacheEnc [1]).2.length = 1 := by decide
 
 /-- **cache transparency**: any sequence of cached reads equals the uncached reads -/
 theorem cache_transparent (cfg : ArrCfg α) (st : KV) (kind : CacheKind) (evict : Cache α → Cache α)
     (hev : EvictOk evict) (cache : Cache α) (hc : cfg.CacheOk st kind cache) (reads : List Idx) :
     (cfg.cachedReads st kind evict cache reads).1 = reads.map (cfg.retrieveChunk st) ∧
-    cfg.CacheOk st kind (cfg.cachedReads st kind evict cache reads).2 := by
-  sorry
+    cfg.CacheOk st kind (cfg.cachedReads st kind evict cache reads).2 :=
+  cfg.cachedReads_spec st kind evict hev reads cache hc
+
+-- same hypotheses as `cached_read_eq`; a read sequence with a repeat, an eviction and a failing read
+example : EvictOk Ex.evict1 ∧ Ex.cfg.CacheOk Ex.st .decoded Ex.cacheDec :=
+  ⟨fun c => List.take_sublist 1 c, Ex.cacheDec_ok⟩
+example : (Ex.cfg.cachedReads Ex.st .decoded Ex.evict1 Ex.cacheDec [[0], [1], [0], [0, 0], [0]]).1 =
+    [some [7, 9], some [0, 0], some [7, 9], none, some [7, 9]] := by decide
 
 /-- chunk-subset reads through a cache equal the uncached chunk-subset read -/
 theorem cached_subset_eq (cfg : ArrCfg α) (st : KV) (kind : CacheKind) (evict : Cache α → Cache α)
     (hev : EvictOk evict) (cache : Cache α) (hc : cfg.CacheOk st kind cache) (c : Idx) (r : Subset) :
     (cfg.cachedRetrieveChunkSubset st kind evict cache c r).1 = cfg.retrieveChunkSubset st c r := by
-  sorry
+  unfold ArrCfg.cachedRetrieveChunkSubset ArrCfg.retrieveChunkSubset
+  cases cfg.chunkShape c with
+  | none => rfl
+  | some s =>
+    by_cases hb : (!r.inboundsShape s) = true
+    · simp only [hb, if_true]
+    · simp only [hb]
+      rw [← (cfg.cachedRetrieveChunk_spec st kind evict hev cache hc c).1]
+      rfl
+
+-- same hypotheses as `cached_read_eq`; an in-bounds subset of the cached chunk
+example : EvictOk Ex.evict1 ∧ Ex.cfg.CacheOk Ex.st .encoded Ex.cacheEnc :=
+  ⟨fun c => List.take_sublist 1 c, Ex.cacheEnc_ok⟩
+example : (Ex.cfg.cachedRetrieveChunkSubset Ex.st .encoded Ex.evict1 Ex.cacheEnc [0] ⟨[1], [1]⟩).1 = some [9] := by
+  decide
 
 /-- failed reads are not cached: the cache is unchanged when the fill closure fails -/
 theorem failed_read_not_cached (cfg : ArrCfg α) (st : KV) (kind : CacheKind) (evict : Cache α → Cache α)
     (cache : Cache α) (c : Idx) (hmiss : cache.lookup c = none) (hfail : cfg.cacheFill st kind c = none) :
     (cfg.cachedRetrieveChunk st kind evict cache c).2 = cache := by
-  sorry
+  simp only [ArrCfg.cachedRetrieveChunk, hmiss, hfail]
+
+-- a miss whose fill closure fails, on a non-empty cache
+example : Ex.cacheEnc.lookup [0, 0] = none ∧ Ex.cfg.cacheFill Ex.st .encoded [0, 0] = none := ⟨rfl, rfl⟩
 
 /-- the empty cache is coherent; concrete policies satisfy `EvictOk`: LRU by count at any capacity (incl. 0) -/
-theorem empty_cache_ok (cfg : ArrCfg α) (st : KV) (kind : CacheKind) : cfg.CacheOk st kind [] := by
-  sorry
+theorem empty_cache_ok (cfg : ArrCfg α) (st : KV) (kind : CacheKind) : cfg.CacheOk st kind [] :=
+  fun _ hp => nomatch hp
 
-theorem take_evictOk (cap : Nat) : EvictOk (fun c : Cache α => c.take cap) := by
-  sorry
+theorem take_evictOk (cap : Nat) : EvictOk (fun c : Cache α => c.take cap) :=
+  fun c => List.take_sublist cap c
 
 end Zarrs.C06
